@@ -94,7 +94,20 @@ def run(ctx):
         ns = {}
         for k in keys:
             ns["visit_" + k] = (lambda kk: (lambda self, node: (called.append((kk, node)), "ret:" + kk)[1]))(k)
-        V = type("V", (P.NodeVisitor,), ns)
+        # how the handlers reach the visitor: declared on a direct subclass, inherited from a parent visitor class,
+        # split over two levels, or attached to the class after the class statement (all are "a visitor's method")
+        shape = rng.randrange(4)
+        if shape == 0:
+            V = type("V", (P.NodeVisitor,), ns)
+        elif shape == 1:
+            V = type("V", (type("Base", (P.NodeVisitor,), ns),), {})
+        elif shape == 2:
+            items = sorted(ns.items())
+            V = type("V", (type("Base", (P.NodeVisitor,), dict(items[::2])),), dict(items[1::2]))
+        else:
+            V = type("V", (P.NodeVisitor,), {})
+            for k2, f2 in ns.items():
+                setattr(V, k2, f2)
         v = V()
         for nm in sorted(variants):
             for node in (P.Node(nm, P.LiteralNode("x", 0, 1)), P.LiteralNode("y", 3, 1)):
